@@ -109,7 +109,8 @@ def special(out):
 
 def main():
     name = sys.argv[1] if len(sys.argv) > 1 else ""
-    legs = {"special": special}
+    import jscall
+    legs = {"special": special, "jscall": jscall.run}
     if name not in legs:
         print("usage: ./extra <%s>" % "|".join(legs), file=sys.stderr)
         return 2
@@ -122,6 +123,22 @@ def main():
     d = lib.ensure(os.path.join(lib.VERIF, "extra_evidence"))
     json.dump(out, open(os.path.join(d, name + ".json"), "w"), indent=1, default=str)
     seen = {}
+    if name == "jscall":
+        # differences already analysed and described in DESIGN.md §0.6 are listed in extra_known.json (by ABI, kind and a pattern on
+        # the method shape); they are printed as KNOWN-DIFFERENCE, anything else is a new DIFFERENCE (exit 3)
+        known = json.load(open(os.path.join(lib.VERIF, "extra_known.json")))["jscall"]
+        seen, newd = {}, 0
+        for x in diffs:
+            kn = next((k for k in known if k["abi"] == x["case"]["abi"] and x["what"].startswith(k["what"]) and re.search(k["shape"], x["shape"])), None)
+            k = ("KNOWN-DIFFERENCE" if kn else "DIFFERENCE", x["case"]["abi"], x["what"])
+            if k not in seen:
+                seen[k] = [0, x["shape"]]
+            seen[k][0] += 1
+            newd += (kn is None)
+        for (tag, abi, what), (n, eg) in sorted(seen.items()):
+            print("%s extra=jscall abi=%s %s (x%d, e.g. %s)" % (tag, abi, what, n, eg))
+        print("extra %s: cases=%d differences=%d known=%d new=%d" % (name, out.get("cases", 0), len(diffs), len(diffs) - newd, newd))
+        return 3 if newd else 0
     for x in diffs:
         k = json.dumps([x["what"], x.get("spec"), x.get("impl"), x["case"]["m"]["mk"]])
         seen[k] = seen.get(k, 0) + 1
